@@ -328,16 +328,32 @@ impl<'p> ThunkData<'p> {
         let mut state = self.state.borrow_mut();
         match *state {
             ThunkState::Done(ref value) => ThunkState::Done(value.clone()),
-            ThunkState::Pending(_) => std::mem::replace(&mut *state, ThunkState::InProgress),
-            ThunkState::InProgress => ThunkState::InProgress,
+            ThunkState::Pending(ref pending) => {
+                // Keep what is needed to evaluate the thunk again in case
+                // this evaluation fails (see `reset_in_progress`).
+                let in_progress = ThunkState::InProgress(pending.clone());
+                std::mem::replace(&mut *state, in_progress)
+            }
+            ThunkState::InProgress(ref pending) => ThunkState::InProgress(pending.clone()),
         }
     }
 
     #[inline]
     pub(super) fn set_done(&self, value: ValueData<'p>) {
         let mut state = self.state.borrow_mut();
-        assert!(matches!(*state, ThunkState::InProgress));
+        assert!(matches!(*state, ThunkState::InProgress(_)));
         *state = ThunkState::Done(value);
+    }
+
+    /// Makes a thunk whose evaluation was aborted by an error pending again,
+    /// so that a later evaluation starts over instead of reporting infinite
+    /// recursion.
+    pub(super) fn reset_in_progress(&self) {
+        let mut state = self.state.borrow_mut();
+        if let ThunkState::InProgress(ref pending) = *state {
+            let pending = pending.clone();
+            *state = ThunkState::Pending(pending);
+        }
     }
 
     #[inline]
@@ -352,7 +368,7 @@ impl<'p> ThunkData<'p> {
 pub(super) enum ThunkState<'p> {
     Done(ValueData<'p>),
     Pending(PendingThunk<'p>),
-    InProgress,
+    InProgress(PendingThunk<'p>),
 }
 
 impl GcTrace for ThunkState<'_> {
@@ -363,11 +379,12 @@ impl GcTrace for ThunkState<'_> {
         match self {
             Self::Done(value) => value.trace(ctx),
             Self::Pending(pending) => pending.trace(ctx),
-            Self::InProgress => {}
+            Self::InProgress(pending) => pending.trace(ctx),
         }
     }
 }
 
+#[derive(Clone)]
 pub(super) enum PendingThunk<'p> {
     Expr {
         expr: &'p ir::Expr<'p>,
